@@ -7,6 +7,8 @@ import KoordVerif.Proofs.C11Sort
 import KoordVerif.Proofs.C11SortBE
 import KoordVerif.Proofs.C11ExtScan
 import KoordVerif.Proofs.C11ExtRounds
+import KoordVerif.Model.C11Metric
+import KoordVerif.Proofs.C11ExtMetric
 /-
 C11 — property theorems (DESIGN.md §4 C11).
 
@@ -19,6 +21,7 @@ All statements hold for every task list, every `IsPodEvicted` answer and every s
 
 Part B: victim selection and order.  Part D: decoding of labels / annotations.  Part C: several rounds against
 the real executor (Evictor TTL cache + DefaultEvictionExecutor).  Part E: memoryEvict() / cpuEvict() end to end.
+Part F: the metric glue (CollectPodMetricLast on the metric cache) that decides whether a pod is "measured".
 -/
 namespace KoordVerif.C11
 
@@ -959,5 +962,181 @@ example :
     ((memoryEvict allocF c [mk 0 3500 800 0, mk 1 5500 100 300, mk 2 5600 100 200] (fun _ => false) []).map
       fun st => (st.logRev.reverse.map (fun ev => (ev.e.pod, ev.kind)), st.released)) =
       some ([(0, .ok), (1, .ok), (2, .ok)], []) := by decide
+
+/-! ## Part F — the metric glue (Model/C11Metric.lean): where "measured" comes from -/
+
+/-- F.1 `CollectPodMetricLast` returns an ERROR exactly when the querier fails or NO point of the pod's series
+    lies inside the query window `[end − 2·collectInterval, end]` (never-sampled pod, stale points only, points
+    later than the query end): an empty result is an error, not the value 0. -/
+theorem collect_errs_iff_no_sample_in_window (queryErr : Bool) (window : Int) (series : List Sample) :
+    podMetricLast queryErr window series = none ↔
+      (queryErr = true ∨ ∀ s ∈ series, s.inWindow window = false) := by
+  unfold podMetricLast
+  by_cases hq : queryErr = true
+  · simp [hq]
+  · simp only [hq, if_false, Option.map_eq_none_iff, lastOf_none_iff, false_or, Bool.false_eq_true]
+    rw [List.filter_eq_nil_iff]
+    constructor
+    · intro h s hs; simpa using h s hs
+    · intro h s hs; simp [h s hs]
+
+/-- F.2 otherwise it returns the value of the LATEST point inside the window. -/
+theorem collect_is_latest_in_window (queryErr : Bool) (window : Int) (series : List Sample) (v : Int)
+    (h : podMetricLast queryErr window series = some v) :
+    queryErr = false ∧ ∃ s ∈ series, s.inWindow window = true ∧ s.milli = v ∧
+      ∀ y ∈ series, y.inWindow window = true → s.age ≤ y.age := by
+  unfold podMetricLast at h
+  by_cases hq : queryErr = true
+  · simp [hq] at h
+  · simp only [hq, if_false, Option.map_eq_some_iff, Bool.false_eq_true] at h
+    obtain ⟨s, hs, rfl⟩ := h
+    obtain ⟨hmem, hmin⟩ := lastOf_some _ s hs
+    obtain ⟨h1, h2⟩ := List.mem_filter.mp hmem
+    refine ⟨by simpa using hq, s, h1, h2, rfl, fun y hy hw => hmin y (List.mem_filter.mpr ⟨hy, hw⟩)⟩
+
+/-- F.3 the empty series in particular: an error, not usage 0 (what seeded change C11-e turned it into). -/
+theorem collect_empty_series_is_error (window : Int) :
+    podMetricLast false window [] = none ∧ podMetricLast false window [] ≠ some 0 := by
+  constructor <;> simp [podMetricLast, lastOf]
+
+/-- a pod together with the state of the metric cache for it. -/
+structure PodSrc where
+  raw      : RawPod
+  queryErr : Bool
+  series   : List Sample
+
+/-- the pod as the list builders see it. -/
+def PodSrc.pod (window : Int) (x : PodSrc) : RawPod := x.raw.withSeries x.queryErr window x.series
+
+/-- the agent holds a usage sample of the pod inside the query window. -/
+def PodSrc.HasSample (window : Int) (x : PodSrc) : Prop :=
+  x.queryErr = false ∧ ∃ s ∈ x.series, s.inWindow window = true
+
+theorem measured_iff_has_sample (window : Int) (x : PodSrc) :
+    (x.pod window).hasMetric = true ↔ x.HasSample window := by
+  unfold PodSrc.pod RawPod.withSeries RawPod.withMetric PodSrc.HasSample
+  simp only []
+  rw [← Option.ne_none_iff_isSome, Ne, collect_errs_iff_no_sample_in_window]
+  cases x.queryErr <;> simp
+
+theorem rawPrioEligible_measured (code : Nat) (pt : Int) (rp : RawPod) (h : RawPrioEligible code pt rp) :
+    rp.hasMetric = true := by
+  obtain ⟨pr, _, _, _, _, _, hm⟩ := h
+  exact hm
+
+/-- F.4 a pod WITHOUT a usage sample inside the window stands in no priority-based victim list
+    (MemoryEvict, MemoryAllocatableEvict, CPUEvict, CPUAllocatableEvict), whatever its labels. -/
+theorem prio_list_members_have_sample (code : Nat) (pt : Int) (byReq : Bool) (window : Int) (src : List PodSrc) (i : Info)
+    (h : i ∈ selectPrio pt byReq ((src.map (PodSrc.pod window)).map (decodePodFor code)) ∨
+         i ∈ selectPrioMem pt byReq ((src.map (PodSrc.pod window)).map (decodePodFor code))) :
+    ∃ x ∈ src, i.pod.id = x.raw.id ∧ x.HasSample window := by
+  obtain ⟨rp, hrp, hid, hel⟩ := mem_selectPrio_raw code pt byReq _ i h
+  obtain ⟨x, hx, rfl⟩ := List.mem_map.mp hrp
+  exact ⟨x, hx, hid, (measured_iff_has_sample window x).mp (rawPrioEligible_measured code pt _ hel)⟩
+
+/-- the BE lists keep such a pod, with usage 0 (memory and cpu alike): the unchanged tree's behaviour. -/
+theorem be_list_keeps_unmeasured_with_usage_zero (usage : Int → Int → Int) (usedDiv : Int) (cpu : Bool) (p : Pod)
+    (hq : p.qosBE = true) (hp : policyAllowed p.policy = true) (hm : p.hasMetric = false) :
+    ∃ i, beInfo? usage usedDiv cpu p = some i ∧ i.pod = p ∧ i.used = 0 := by
+  unfold beInfo?
+  simp [hq, hp, hm]
+
+theorem memTasks_getElem (allocF : Int → Int → Int → Int → Option Int) (c : MemCfg) (pods : List RawPod)
+    (f : MemFeature) (t : Task) (h : (f, t) ∈ memTasks allocF c pods) :
+    c.on f = true ∧ memTask allocF c pods f = some t := by
+  unfold memTasks at h
+  by_cases hcap : c.capacity ≤ 0
+  · simp [hcap] at h
+  · simp only [hcap, if_false] at h
+    obtain ⟨f0, _, hf0⟩ := List.mem_filterMap.mp h
+    by_cases hon : c.on f0 = true
+    · simp only [hon, if_true] at hf0
+      cases hm : memTask allocF c pods f0 with
+      | none => simp [hm] at hf0
+      | some t0 =>
+        simp [hm] at hf0
+        obtain ⟨rfl, rfl⟩ := hf0
+        exact ⟨hon, hm⟩
+    · simp [hon] at hf0
+
+theorem cpuTasks_getElem (usage : Int → Int → Int) (allocF : Int → Int → Int → Int → Option Int) (c : CpuCfg)
+    (pods : List RawPod) (f : CpuFeature) (t : Task) (h : (f, t) ∈ cpuTasks usage allocF c pods) :
+    c.on f = true ∧ cpuTask usage allocF c pods f = some t := by
+  unfold cpuTasks at h
+  by_cases hcap : c.capacity ≤ 0
+  · simp [hcap] at h
+  · simp only [hcap, if_false] at h
+    obtain ⟨f0, _, hf0⟩ := List.mem_filterMap.mp h
+    by_cases hon : c.on f0 = true
+    · simp only [hon, if_true] at hf0
+      cases hm : cpuTask usage allocF c pods f0 with
+      | none => simp [hm] at hf0
+      | some t0 =>
+        simp [hm] at hf0
+        obtain ⟨rfl, rfl⟩ := hf0
+        exact ⟨hon, hm⟩
+    · simp [hon] at hf0
+
+/-- F.5 memoryEvict() end to end over pods whose metric fields come from the metric cache: the task that hands a
+    pod to the executor (`ev.task` is its index in the task list of the run) belongs to a feature that is on, and
+    unless that feature is BEMemoryEvict the agent holds a usage sample of the pod inside the query window —
+    "a pod without a recent usage sample is never a victim on the priority paths". -/
+theorem mem_e2e_prio_victims_have_sample (allocF : Int → Int → Int → Int → Option Int) (c : MemCfg) (window : Int)
+    (src : List PodSrc) (isEv : Nat → Bool) (script : List Bool) (st : St)
+    (h : memoryEvict allocF c (src.map (PodSrc.pod window)) isEv script = some st) (ev : Ev) (hev : ev ∈ st.logRev) :
+    ∃ f t, (memTasks allocF c (src.map (PodSrc.pod window)))[ev.task]? = some (f, t) ∧ c.on f = true ∧ ev.e ∈ t.pods ∧
+      ∃ x ∈ src, ev.e.pod = x.raw.id ∧ (f ≠ .be → x.HasSample window) := by
+  unfold memoryEvict at h
+  by_cases hemp : (memTasks allocF c (src.map (PodSrc.pod window))).isEmpty = true <;> simp [hemp] at h
+  subst h
+  obtain ⟨newer, older, hsplit⟩ := List.append_of_mem hev
+  obtain ⟨t, ht, hin⟩ := victims_are_candidates isEv script _ newer ev older hsplit
+  rw [List.getElem?_map] at ht
+  obtain ⟨⟨f, t'⟩, hft, rfl⟩ := Option.map_eq_some_iff.mp ht
+  obtain ⟨hon, hm⟩ := memTasks_getElem allocF c _ f t' (List.mem_of_getElem? hft)
+  obtain ⟨rp, hrp, hid, hel⟩ := memTask_pods_eligible allocF c _ f t' hm ev.e hin
+  obtain ⟨x, hx, rfl⟩ := List.mem_map.mp hrp
+  refine ⟨f, t', hft, hon, hin, x, hx, hid, fun hne => (measured_iff_has_sample window x).mp ?_⟩
+  cases f with
+  | be => exact absurd rfl hne
+  | alloc => obtain ⟨pt, _, _, h2⟩ := hel; exact rawPrioEligible_measured _ _ _ h2
+  | mem => obtain ⟨pt, _, h2⟩ := hel; exact rawPrioEligible_measured _ _ _ h2
+
+/-- F.6 the same for cpuEvict(): CPUAllocatableEvict and CPUEvict never take a pod without a usage sample. -/
+theorem cpu_e2e_prio_victims_have_sample (usage : Int → Int → Int) (allocF : Int → Int → Int → Int → Option Int)
+    (c : CpuCfg) (window : Int) (src : List PodSrc) (isEv : Nat → Bool) (script : List Bool) (st : St)
+    (h : cpuEvict usage allocF c (src.map (PodSrc.pod window)) isEv script = some st) (ev : Ev) (hev : ev ∈ st.logRev) :
+    ∃ f t, (cpuTasks usage allocF c (src.map (PodSrc.pod window)))[ev.task]? = some (f, t) ∧ c.on f = true ∧ ev.e ∈ t.pods ∧
+      ∃ x ∈ src, ev.e.pod = x.raw.id ∧ (f ≠ .be → x.HasSample window) := by
+  unfold cpuEvict at h
+  by_cases hemp : (cpuTasks usage allocF c (src.map (PodSrc.pod window))).isEmpty = true <;> simp [hemp] at h
+  subst h
+  obtain ⟨newer, older, hsplit⟩ := List.append_of_mem hev
+  obtain ⟨t, ht, hin⟩ := victims_are_candidates isEv script _ newer ev older hsplit
+  rw [List.getElem?_map] at ht
+  obtain ⟨⟨f, t'⟩, hft, rfl⟩ := Option.map_eq_some_iff.mp ht
+  obtain ⟨hon, hm⟩ := cpuTasks_getElem usage allocF c _ f t' (List.mem_of_getElem? hft)
+  obtain ⟨rp, hrp, hid, hel⟩ := cpuTask_pods_eligible usage allocF c _ f t' hm ev.e hin
+  obtain ⟨x, hx, rfl⟩ := List.mem_map.mp hrp
+  refine ⟨f, t', hft, hon, hin, x, hx, hid, fun hne => (measured_iff_has_sample window x).mp ?_⟩
+  cases f with
+  | be => exact absurd rfl hne
+  | alloc => obtain ⟨pt, _, _, h2⟩ := hel; exact rawPrioEligible_measured _ _ _ h2
+  | cpu => obtain ⟨pt, _, h2⟩ := hel; exact rawPrioEligible_measured _ _ _ h2
+
+/-- the hypotheses are satisfiable with a victim and exclude a concrete pod: two koord-batch pods under MemoryEvict
+    pressure (capacity 100, used 90, threshold 80/78 ⇒ target 12), pod 0 never sampled, pod 1 sampled 500 ms ago
+    (plus a stale point): only pod 1 is handed to the executor. -/
+example :
+    let mk : Nat → RawPod := fun id =>
+      { id := id, name := id, qosLabel := 1, kubeQoS := 1, phase := 1, specPrio := some 5500, clsLabel := 0, evictLabel := 1,
+        evictPrio := .absent, prioLabel := .absent, policyTop := 0, policyElems := [], hasMetric := false, used := 0,
+        reqNative := 1, reqMid := 0, reqBatch := 0, batchReq := 0 }
+    let src : List PodSrc := [⟨mk 0, false, []⟩, ⟨mk 1, false, [⟨5000, 7000⟩, ⟨500, 20000⟩]⟩]
+    let c : MemCfg := { beOn := false, allocOn := false, memOn := true, thr := some 80, lower := some 78, prioThr := some 5999,
+                        aThr := none, aLower := none, aPrioThr := none, capacity := 100, nodeUsed := some 90,
+                        allocMem := none, allocBatch := none, allocMid := none }
+    ((memoryEvict (fun _ _ _ _ => none) c (src.map (PodSrc.pod 2000)) (fun _ => false) []).map
+        fun st => st.logRev.map fun ev => (ev.e.pod, ev.kind)) = some [(1, .ok)] := by decide
 
 end KoordVerif.C11
